@@ -341,6 +341,29 @@ impl Session {
         self.set_session_mode(mode)
     }
 
+    /// Verification hook: `pre_send`.
+    #[cfg(rs_matter_verif)]
+    pub fn verif_pre_send(
+        &mut self,
+        exch_index: Option<usize>,
+        tx_header: &mut PacketHdr,
+    ) -> Result<(Address, bool), Error> {
+        self.pre_send(exch_index, tx_header, None, None)
+    }
+
+    /// Verification hook: `add_exch` with the given role.
+    #[cfg(rs_matter_verif)]
+    pub fn verif_add_exch(&mut self, exch_id: u16, initiator: bool) -> Option<usize> {
+        self.add_exch(
+            exch_id,
+            if initiator {
+                Role::Initiator(Default::default())
+            } else {
+                Role::Responder(Default::default())
+            },
+        )
+    }
+
     /// Verification hook: `post_recv`.
     #[cfg(rs_matter_verif)]
     pub fn verif_post_recv(&mut self, rx_header: &PacketHdr) -> Result<bool, Error> {
@@ -1850,6 +1873,19 @@ impl Sessions {
         } else {
             None
         }
+    }
+}
+
+/// Verification hooks: the identifier cursors.
+#[cfg(rs_matter_verif)]
+impl Sessions {
+    pub fn verif_cursors(&self) -> (u16, u16) {
+        (self.next_sess_id, self.next_exch_id)
+    }
+
+    pub fn verif_set_cursors(&mut self, next_sess_id: u16, next_exch_id: u16) {
+        self.next_sess_id = next_sess_id;
+        self.next_exch_id = next_exch_id;
     }
 }
 
